@@ -197,9 +197,13 @@ CHECKS = {
              "skipped or counted twice, independent of packet boundaries and of the end-of-stream flush meeting a lap boundary "
              "(C10_windows, C10_filter_emits_means). Tied to the code on every run by driving the real video_filter_thread/process_data "
              "(filter.c, channel.c, frame_iterator.c unmodified) on small rings pre-filled with non-zero bytes and comparing every output "
-             "frame bit for bit with the extracted model; an independent exact-rational oracle states C10 over the implementation's output.",
-        note=TB + "Modelled, not verified: the filter thread runs single-threaded with the harness playing source and sink (thread "
-             "interleaving of source/filter/sink is the pipeline family's concern); k*maxval >= 2^24 (u16 with k > 256) is outside "
+             "frame bit for bit with the extracted model; an independent exact-rational oracle states C10 over the implementation's output; and "
+             "on the WHOLE runtime (acquire.c, source/filter/sink threads, channel, HAL from the working tree under the deterministic scheduler "
+             "with the mock driver, averaging 2..4, rings of 2-6 output frames, random/PCT schedules, slow storage, a monitoring client) every "
+             "averaged frame that reaches storage or the monitor is compared bit for bit with the recomputed binary32 mean, window ids and counts.",
+        note=TB + "Modelled, not verified: in the model tie the filter thread runs single-threaded with the harness playing source and sink; the "
+             "interleaving of source/filter/sink threads with averaging on is exercised by the whole-runtime stage (oracle only: the pipeline "
+             "model's grammar has averaging off); k*maxval >= 2^24 (u16 with k > 256) is outside "
              "C10_sum_exact and reported; f32 input is rejected by the code. Axioms (Flocq/Reals, standard library): "
              "ClassicalDedekindReals.sig_forall_dec, sig_not_dec, FunctionalExtensionality.functional_extensionality_dep, Classical_Prop.classic "
              "where a theorem's Print Assumptions lists them (see evidence axioms_per_theorem).",
